@@ -581,7 +581,7 @@ def stress_cases(draw):
     d["n"] = 6
     d["offs"] = [[0.1 * i, 0.2, -0.1 * i] for i in range(6)]
     d["rots_m"] = [{"cls": "identity", "rv": [0.0, 0.0, 0.0]}] * 6
-    d["reps"] = 25
+    d["reps"] = 10
     return d
 
 
@@ -612,6 +612,6 @@ def engines():
                cases={"quick": 80, "thorough": 2500}, shards={"quick": 8, "thorough": 16}),
         Engine("stress", judge_stress, strategy=stress_cases(), nontrivial=lambda d: True,
                labels=lambda d: [f"comp:{d['comp']}", f"model:{d['model']}"],
-               cases={"quick": 0, "thorough": 48}, shards={"quick": 1, "thorough": 4}, shrink={"quick": False, "thorough": False}),
+               cases={"quick": 0, "thorough": 48}, shards={"quick": 1, "thorough": 12}, shrink={"quick": False, "thorough": False}),
     ]
     return e
